@@ -63,7 +63,9 @@ def cell_ok(col, k, cell, eps, allcells):
 class C06(core.Prop):
     pid = 'C06'
     lean_modules = ['TddaVerif.Props.C06']
-    theorems = []
+    theorems = ['TddaVerif.Props.C06.' + t for t in ['detect_verdicts_eq_verify', 'flags_length', 'flag_false_iff_violates',
+        'type_failure_flags_all', 'wrong_typed_bound_flags_all', 'maxNulls_flags_nulls', 'noDuplicates_flags',
+        'nFailures_exact', 'counts_partition']]
     quick_n = 300
     thorough_n = 12000
     rule = ('cases: frames of 1..3 columns x 1..10 rows with a boundary-directed constraint set (as C02, biased so '
